@@ -163,6 +163,26 @@ SUMMARY.update({
  "C15-10": "every refinement step kept alive until convergence: memory O(rounds x atoms), 2.3 GB for a 2600-atom chain",
 })
 
+# round 8
+SUMMARY.update({
+ "C03-11": "node attributes written from the graph before the final sort (m_labeled variable slip); 13CH3-CH2-OH puts the label on the other carbon",
+ "C03-12": "refine_partitions turned back into a recursive generator: RecursionError for unbranched chains of >= ~2000 atoms (really a C15 violation; caught by C15's stack-growth obligation and scaled replay)",
+ "C04-8": "V3000 reader numbers atoms with enumerate() while bonds use the written indices: atom lines out of index order give another molecule (a reader change: caught by C01, C06, C07, not by the graph-level C04)",
+ "C04-9": "attribute_sequence sorts neighbour invariant codes by (Z, mass) only: neighbours that differ in radical state stay in bond-listing order, classes depend on the listing",
+ "C05-9": "sections joined with '/' only when non-empty (third independent rediscovery): bond-less labelled molecule emits 'He/(1:mass=3)'",
+ "C05-10": "V2000 merge: 'any(attrs.values())' per atom instead of per value: an explicit zero in one property line next to a non-zero entry in another leaks rad=0 / mass=0 into the string",
+ "C09-11": "continuation join rstrip('-') (fourth rediscovery): cut right after a minus sign flips the sign",
+ "C09-12": "coordinates >= 1e16 written with '{:.15e}' (16 significant digits): values needing 17 digits read back an ulp off",
+ "C10-11": "duplicate-attribute check via setdefault (third rediscovery): a repeated attribute with the same value is accepted",
+ "C10-12": "early return for an empty sum formula before index validation (second rediscovery): '/(1-2)' accepted",
+ "C12-9": "canonicalize_molecule cache keyed on (atom order, invariant codes, edges) storing the whole canonical graph: a second graph with other charges/bond types/coordinates gets the first one's (multi-step)",
+ "C13-9": "refinement loop bounded by the size of the largest initial class: periodic chain F-(S-Se-Te)x, x >= 6 (19 atoms) returns an unstable partition — missed at first; the curated molecule F(SSeTe)6 was added",
+ "C13-10": "canonicalize_molecule continues from incoming non-zero PARTITION values: canonicalize, delete atoms, canonicalize again keeps the stale (too fine) classes — missed at first; the `recanon-edited` description was added",
+ "C16-9": "local Random instance passed to the first shuffle only; the retry loop draws from the unseeded global generator (water, seed 1/64)",
+ "C16-10": "lru_cache on permute_molecule (key = graph object identity + seed): permute, edit the graph, permute again returns the stale result — missed at first; the history leg `edited-argument-is-permuted-afresh` was added",
+})
+BREAKS = {"C03-12": "C15", "C04-8": "C01 C06 C07", "C02-9": "C08", "C06-9": "C07", "C06-7": "C07", "C15-8": "C08"}
+
 
 def main():
     rows = []
@@ -189,7 +209,7 @@ def main():
         m = os.path.join(d, "meta.json")
         if os.path.exists(m):
             meta = json.load(open(m))
-            meta["breaks"] = meta["property"]
+            meta["breaks"] = BREAKS.get(meta["id"], meta["property"])
             meta["needs_to_manifest"] = SUMMARY.get(meta["id"], "")
             json.dump(meta, open(m, "w"), indent=1)
 
